@@ -75,7 +75,7 @@ class C20(Prop):
             elif g % 6 == 2:        # percent signs, '=' and ':' in values; percent-escaped URLs
                 base["comment_val"] = "100% legit = yes: [really] %(x)s"
                 base["source_val"] = "50%off"
-                base["url_suffix"] = "?k=%20a%2Fb&x=1"
+                base["url_suffix"] = "?k=%20a%2Fb&x=1,2;tags=iso,linux"
             elif g % 6 == 5:        # characters that command-line layers (argument files, shells) treat specially
                 base["comment_val"] = "@home: see @README, \"quoted\" $HOME ~user !x"
                 base["source_val"] = "@SceneGroup"
